@@ -57,9 +57,17 @@ def point_based_value_iteration(
     if horizon is None:
         rmax = pomdp.state_action_reward_matrix.max().item()
         rmin = pomdp.state_action_reward_matrix.min().item()
-        horizon = value_convergence_epsilon / (rmax - rmin)
-        horizon = np.log(horizon) / np.log(pomdp.discount_rate)
-        horizon = int(np.ceil(horizon))
+        reward_range = rmax - rmin
+        if reward_range == 0:
+            # constant rewards: fall back to their magnitude
+            reward_range = abs(rmax)
+        if reward_range == 0:
+            # all rewards are zero: a single backup is exact
+            horizon = 1
+        else:
+            horizon = value_convergence_epsilon / reward_range
+            horizon = np.log(horizon) / np.log(pomdp.discount_rate)
+            horizon = int(np.ceil(horizon))
 
     tf = pomdp.transition_matrix
     sa_rf = pomdp.state_action_reward_matrix
